@@ -45,7 +45,7 @@ func c02Bounds(tier string) spaceBounds {
 	if tier == "thorough" {
 		return spaceBounds{schemaN: 5, enumN: 6, regexN: 6, jsonN: 6, numberN: 7, schemaD: 7, enumD: 8, jsonD: 10}
 	}
-	return spaceBounds{schemaN: 4, enumN: 5, regexN: 5, jsonN: 5, numberN: 6, schemaD: 5, enumD: 6, jsonD: 8}
+	return spaceBounds{schemaN: 4, enumN: 5, regexN: 5, jsonN: 4, numberN: 6, schemaD: 5, enumD: 5, jsonD: 8}
 }
 
 type sinkMaker func(entry string, in []byte, wit []byte) callSink
@@ -383,6 +383,7 @@ func init() {
 			r := &spaceRunner{w: w, mk: func(entry string, in []byte, wit []byte) callSink { return c16Sink(w, entry, in, wit) }}
 			r.run(c02Bounds(w.Tier))
 			r.mutationFamily()
+			r.violationFamily()
 		},
 		Replay: func(w *core.W, v *core.Violation) {
 			replayBundle(w, v, func(entry string, in []byte, wit []byte) callSink { return c16Sink(w, entry, in, wit) })
@@ -392,6 +393,32 @@ func init() {
 			"line/column are compared only for texts with a single newline convention and indices that do not sit on a terminator byte",
 		},
 	})
+}
+
+// violationFamily (C16): a rule violation (or a missing type) placed inside a
+// registered type that the root reaches through every kind of reference, incl.
+// inheritance (the offending node then lives in another type's text).
+func (r *spaceRunner) violationFamily() {
+	w := r.w
+	bad := []string{"{\n\t\"pad\": true,\n\t\"k\": 5 // {min: 9}\n}", "{\n\n\t\"k\": \"abc\" // {maxLength: 1}\n}", "{\r\n\t\"k\": @gone\r\n}", "{\n\t\"kkkkkkkkkkkk\": @ok | @gone\n}", "{\n\t\"k\": 1 // {or: [{type: \"string\"}, {type: \"boolean\"}]}\n}"}
+	viaZ := []string{`@z`, "{ // {allOf: \"@z\"}\n\t\"own\": 1\n}", "{} // {allOf: [\"@ok2\", \"@z\"]}", "[\n\t@z\n]", "{\n\t\"p\": @z | @ok\n}", "{} // {additionalProperties: \"@z\"}", "{\n\t@ok: @z\n}"}
+	roots := []string{`@a`, "{\n\t\"r\": @a\n}", "{} // {allOf: \"@a\"}"}
+	var i int64
+	for _, b := range bad {
+		for _, a := range viaZ {
+			for _, root := range roots {
+				i++
+				if !w.Mine(i) {
+					continue
+				}
+				r.projectCase("violations", &project{Root: root, Types: map[string]string{"@a": a, "@z": b, "@ok": `"s"`, "@ok2": "{\n\t\"o2\": 1\n}"}})
+				w.S.Nontrivial++
+			}
+		}
+	}
+	if w.Shard == 0 {
+		w.Count("violation_family.projects", i)
+	}
 }
 
 // mutationFamily (C16): single-token mutations of corpus texts, re-rendered with LF, CRLF and CR.
